@@ -10,15 +10,17 @@ mod c13;
 mod c17;
 mod gen;
 mod lua;
+mod plant;
 mod print;
 mod refsem;
 mod rel;
 mod scope;
+mod visit;
 
 use fw::{Check, Tier};
 
 fn registry() -> Vec<&'static dyn Check> {
-    vec![&c08_09_14::C08, &c08_09_14::C09, &c13::C13, &c08_09_14::C14, &c17::C17]
+    vec![&plant::C03, &plant::C04, &plant::C05, &c08_09_14::C08, &c08_09_14::C09, &c13::C13, &c08_09_14::C14, &c17::C17]
 }
 
 fn find(id: &str) -> Option<&'static dyn Check> {
